@@ -259,7 +259,14 @@ func indexHeader(
 		hdr.Size = int64(size)
 	}
 
-	if hdr.FileInfo().Mode().IsRegular() {
+	// Only records that carry encoded content had a suffix added to their name; delete, move and metadata-only
+	// records are written with the entry's plain name
+	_, isMove := hdr.PAXRecords[records.STFSRecordReplacesName]
+	action, hasAction := hdr.PAXRecords[records.STFSRecordAction]
+	carriesContent := ok && !isMove && (!hasAction || action == records.STFSRecordActionCreate ||
+		(action == records.STFSRecordActionUpdate && hdr.PAXRecords[records.STFSRecordReplacesContent] == records.STFSRecordReplacesContentTrue))
+
+	if hdr.FileInfo().Mode().IsRegular() && carriesContent {
 		newName, err := suffix.RemoveSuffix(hdr.Name, compressionFormat, encryptionFormat)
 		if err != nil {
 			return err
